@@ -47,6 +47,16 @@ def gen_case(seed, tier="quick"):
             case["bacts"] = [ra.choice(("tanh", "sigmoid", "softplus", "silu")) for _ in case["bhidden"]]
             if ra.random() < 0.5:
                 case["bgains"] = [ra.choice((1.0, 5 / 3, 0.5)) for _ in case["bhidden"]]
+    rt = rnd(seed, "trunk-vars")
+    if rt.random() < 0.3:
+        # trunk space of 2-3 named variables; the trunk points are handed over in a permuted variable order
+        names = rt.choice((["y", "t"], ["t", "y"], ["y", "t", "z"]))
+        case["tvars"] = [[v, 1] for v in names]
+        case["trunk_dim"] = len(names)
+        order = list(names)
+        rt.shuffle(order)
+        case["tin"] = order
+        case["norm_layer"] = False
     hist = []
     for _ in range(r.randint(2, 8)):
         c = r.random()
